@@ -328,6 +328,7 @@ func parseGroup(mp *msgParser, tags []Tag) {
 			return
 		}
 		mp.parsedFieldBytes = &mp.msg.fields[mp.fieldIndex]
+		beforeField := mp.rawBytes
 		mp.rawBytes, _ = extractField(mp.parsedFieldBytes, mp.rawBytes)
 		mp.trailerBytes = mp.rawBytes
 
@@ -355,7 +356,9 @@ func parseGroup(mp *msgParser, tags []Tag) {
 			mp.msg.Header.add(mp.msg.fields[mp.fieldIndex : mp.fieldIndex+1])
 			break
 		} else if isTrailerField(mp.parsedFieldBytes.tag, mp.transportDataDictionary) {
-			// Found the trailer at the end of the message.
+			// Found the trailer at the end of the message: the trailer starts at this field, so that
+			// bodyBytes (used when the message is resent) ends with the group and not with the trailer.
+			mp.trailerBytes = beforeField
 			mp.msg.Body.add(dm)
 			mp.msg.Trailer.add(mp.msg.fields[mp.fieldIndex : mp.fieldIndex+1])
 			mp.foundTrailer = true
